@@ -7,9 +7,11 @@ from pathlib import Path
 V = Path(__file__).resolve().parent.parent
 props = [json.loads(l)["id"] for l in (V / "properties.jsonl").read_text().splitlines() if l.strip()]
 checks = []
+# a fragment counts only after it was reviewed and enabled (one id per line in manifest.d/ENABLED)
+enabled = set((V / "manifest.d" / "ENABLED").read_text().split())
 for pid in props:
     f = V / "manifest.d" / f"{pid}.json"
-    if f.exists():
+    if f.exists() and pid in enabled:
         d = json.loads(f.read_text())
         d.setdefault("property_id", pid)
         d.setdefault("quick_cmd", f"./check {pid} --tier quick")
